@@ -1,7 +1,7 @@
 //@ assume: Extension / Batch are abstract; stored headers and blocks are looked up by hash; rewind_single_block, rewind_mmrs_to_pos, apply_to_bitmap_accumulator are abstract callees with ghost logs (rewind_single_block is under contract in C02/rewind_single_block)
 //@ assume: T6 rewrites: `vec![]` => Vec::new(); `affected_pos.append(&mut affected_pos_single_block)` => helper with the concatenation contract; `&[]` / `&[x]` slice literals => helper slices; `batch: &mut Batch` kept; log macros removed
 //@ assume: termination of the walk is NOT proved (depends on stored heights decreasing along prev links): exec_allows_no_decreases_clause
-//@ assume: decided here: Extension::rewind(header) undoes EXACTLY the blocks on the current extension's chain strictly above `header`'s height, newest first, each through rewind_single_block (which unspends that block's inputs and removes its outputs), then sets the extension head to `header`; when the extension is already at or below that height it only truncates the MMRs to the header's sizes
+//@ assume: decided here: Extension::rewind(header) undoes EXACTLY the blocks on the current extension's chain strictly above `header`'s height, newest first, each through rewind_single_block (which unspends that block's inputs and removes its outputs), rebuilds the bitmap accumulator from a position list that contains every position any of those blocks affected, then sets the extension head to `header`; when the extension is already at or below that height it only truncates the MMRs to the header's sizes
 //@ assumed_items: 11
 //@ fns: Extension::rewind
 #[verifier::external_body]
@@ -33,17 +33,19 @@ impl Batch {
     #[verifier::external_body]
     pub fn get_block(&self, id: &Hash) -> (r: Result<Block, Error>) ensures r matches Ok(b) ==> b == sp_stored_block(*id) { unimplemented!() }
 }
-pub struct Extension { pub head: Tip, pub undone: Ghost<Seq<Block>>, pub truncated_to: Ghost<Option<(u64, u64)>> }
+pub uninterp spec fn sp_affected(b: Block) -> Seq<u64>;
+pub struct Extension { pub head: Tip, pub undone: Ghost<Seq<Block>>, pub truncated_to: Ghost<Option<(u64, u64)>>, pub acc_log: Ghost<Seq<Seq<u64>>> }
 impl Extension {
     #[verifier::external_body]
     fn rewind_single_block(&mut self, block: &Block, batch: &mut Batch) -> (r: Result<Vec<u64>, Error>)
-        ensures r.is_ok() ==> final(self).undone@ == old(self).undone@.push(*block), final(self).head == old(self).head, final(self).truncated_to@ == old(self).truncated_to@ { unimplemented!() }
+        ensures r.is_ok() ==> final(self).undone@ == old(self).undone@.push(*block), final(self).head == old(self).head, final(self).truncated_to@ == old(self).truncated_to@, final(self).acc_log@ == old(self).acc_log@,
+            r matches Ok(v) ==> v@ == sp_affected(*block) { unimplemented!() }
     #[verifier::external_body]
     fn rewind_mmrs_to_pos(&mut self, output_pos: u64, kernel_pos: u64, spent_pos: &[u64]) -> (r: Result<(), Error>)
-        ensures r.is_ok() ==> final(self).truncated_to@ == Some((output_pos, kernel_pos)), final(self).head == old(self).head, final(self).undone@ == old(self).undone@ { unimplemented!() }
+        ensures r.is_ok() ==> final(self).truncated_to@ == Some((output_pos, kernel_pos)), final(self).head == old(self).head, final(self).undone@ == old(self).undone@, final(self).acc_log@ == old(self).acc_log@ { unimplemented!() }
     #[verifier::external_body]
     fn apply_to_bitmap_accumulator(&mut self, output_pos: &[u64]) -> (r: Result<(), Error>)
-        ensures final(self).head == old(self).head, final(self).undone@ == old(self).undone@, final(self).truncated_to@ == old(self).truncated_to@ { unimplemented!() }
+        ensures final(self).head == old(self).head, final(self).undone@ == old(self).undone@, final(self).truncated_to@ == old(self).truncated_to@, final(self).acc_log@ == old(self).acc_log@.push(output_pos@) { unimplemented!() }
 }
 #[verifier::external_body]
 fn vec_append(a: &mut Vec<u64>, b: &mut Vec<u64>) ensures final(a)@ == old(a)@ + old(b)@ { unimplemented!() }
@@ -65,12 +67,22 @@ impl Extension {
 //@   rewrite `self.apply_to_bitmap_accumulator(&affected_pos)?;` => `self.apply_to_bitmap_accumulator(affected_pos.as_slice())?;`
 //@   before `let mut current = head_header;`:
 //@+    let ghost mut m: nat = 0;
+//@   after `let block = batch.get_block(&current.hash())?;`:
+//@+    let ghost aff0 = affected_pos@;
 //@   before `current = batch.get_previous_header(&current)?;`:
-//@+    proof { m = m + 1; assert(anc(head_header, m) == sp_prev(anc(head_header, (m - 1) as nat))); }
+//@+    proof { let sb = sp_affected(block);
+//@+        assert forall|x: u64| aff0.contains(x) implies affected_pos@.contains(x) by { let q = choose|q: int| 0 <= q < aff0.len() && aff0[q] == x; assert(affected_pos@[q] == x); }
+//@+        assert forall|j: int| 0 <= j < sb.len() implies affected_pos@.contains(#[trigger] sb[j]) by { assert(affected_pos@[aff0.len() + j] == sb[j]); }
+//@+        m = m + 1; assert(anc(head_header, m) == sp_prev(anc(head_header, (m - 1) as nat))); }
+//@   before `self.apply_to_bitmap_accumulator(affected_pos.as_slice())?;`:
+//@+    proof { let n0 = old(self).undone@.len();
+//@+        assert forall|k: int, j: int| n0 <= k < self.undone@.len() && 0 <= j < sp_affected(self.undone@[k]).len() implies affected_pos@.contains(#[trigger] sp_affected(self.undone@[k])[j]) by {
+//@+            let kk = (k - n0) as nat; assert(anc(head_header, kk).height > header.height); assert(self.undone@[(n0 + kk) as int] == sp_stored_block(anc(head_header, kk).id)); } }
 //@   loop 1:
 //@+    invariant
 //@+        head_header == sp_stored(old(self).head.id), self.head == old(self).head, self.truncated_to@ == old(self).truncated_to@,
-//@+        current == anc(head_header, m),
+//@+        current == anc(head_header, m), self.acc_log@ == old(self).acc_log@,
+//@+        forall|k: nat, j: int| k < m && 0 <= j < sp_affected(sp_stored_block(anc(head_header, k).id)).len() ==> affected_pos@.contains(#[trigger] sp_affected(sp_stored_block(anc(head_header, k).id))[j]),
 //@+        self.undone@.len() == old(self).undone@.len() + m,
 //@+        self.undone@.take(old(self).undone@.len() as int) =~= old(self).undone@,
 //@+        forall|k: nat| k < m ==> (#[trigger] anc(head_header, k)).height > header.height
@@ -85,6 +97,10 @@ impl Extension {
 //@+        && final(self).undone@.take(old(self).undone@.len() as int) =~= old(self).undone@
 //@+        && forall|k: nat| k < m ==> (#[trigger] anc(sp_stored(old(self).head.id), k)).height > header.height
 //@+            && final(self).undone@[(old(self).undone@.len() + k) as int] == sp_stored_block(anc(sp_stored(old(self).head.id), k).id),
+//@+    // the bitmap accumulator is rebuilt from a list that contains EVERY position affected by EVERY block undone
+//@+    r.is_ok() && sp_stored(old(self).head.id).height > header.height ==> final(self).acc_log@.len() == old(self).acc_log@.len() + 1
+//@+        && forall|k: int, j: int| old(self).undone@.len() <= k < final(self).undone@.len() && 0 <= j < sp_affected(final(self).undone@[k]).len()
+//@+            ==> final(self).acc_log@.last().contains(#[trigger] sp_affected(final(self).undone@[k])[j]),
 //@ end
 }
 //@ canary rewind: r.is_err()
